@@ -85,6 +85,7 @@ STREAM_FLAGS = 0x07
 STREAM_COUNT_MAX = 0x1000000000000000
 UDP_HEADER_SIZE = 8
 MAX_PENDING_RETIRES = 100
+MAX_RECEIVED_PACKET_RANGES = 256
 MAX_PENDING_CRYPTO = 524288  # in bytes
 
 NetworkAddress = Any
@@ -946,6 +947,24 @@ class QuicConnection:
                     )
                 continue
 
+            # Discard duplicate packets, a packet must only be processed once.
+            #
+            # https://datatracker.ietf.org/doc/html/rfc9000#section-12.3
+            if (
+                packet_number < space.received_packets_floor
+                or packet_number in space.received_packets
+            ):
+                if self._quic_logger is not None:
+                    self._quic_logger.log_event(
+                        category="transport",
+                        event="packet_dropped",
+                        data={
+                            "trigger": "duplicate",
+                            "raw": {"length": header.packet_length},
+                        },
+                    )
+                continue
+
             # check reserved bits
             if header.packet_type == QuicPacketType.ONE_RTT:
                 reserved_mask = 0x18
@@ -1072,6 +1091,9 @@ class QuicConnection:
 
             # record packet as received
             if not space.discarded:
+                space.received_packets.add(packet_number)
+                if len(space.received_packets) > MAX_RECEIVED_PACKET_RANGES:
+                    space.received_packets_floor = space.received_packets.shift().stop
                 if packet_number > space.largest_received_packet:
                     space.largest_received_packet = packet_number
                     space.largest_received_time = now
